@@ -1056,6 +1056,9 @@ def run_labels(tier, seed, R):
             R.count(('labels', n_sets, with_group), 'labels')
             try:
                 text = GlueSerializer(dc).dumps()
+            except Exception:
+                continue            # a save that fails loudly is allowed by the property
+            try:
                 got = [labels(GlueUnSerializer.loads(text).object('__main__')) for _ in range(2)]
             except Exception as e:
                 R.fail("labels|exception:%s" % type(e).__name__, "%d datasets with equally labelled subsets%s: %s: %s" % (n_sets, ' and groups' if with_group else '', type(e).__name__, e),
